@@ -45,13 +45,26 @@ theorem reach_of_runLabels {s0 s s' : Sys} (h : Reach s0 s) :
       simp [hs] at e
       exact ih (Reach.step h ⟨l, hs⟩) e
 
+/-- the DUMP payload the lock holder may still RESTORE -/
+def CritPc.held : CritPc → Option Val
+  | .pPttl d => d
+  | .pRestore v => some v
+  | .uFast (.restore v) => some v
+  | _ => none
+
+/-- dump held by the key-lock holder, if any -/
+def critDump (s : Sys) : Option Val :=
+  match s.crit with
+  | some k => k.pc.held
+  | none => none
+
 /-- executions restricted to the hypotheses under which C03 is provable:
 * (F03a) no command that can delete the key but is not classified as blocking is issued;
-* (F03b) the destination installs the committed metadata only while no key lock is held
-  (no pull / push still owns a DUMP that it may RESTORE). -/
+* (F03b) the destination installs the committed metadata only while the key-lock holder (if any)
+  owns no DUMP that it may still RESTORE. -/
 def GoodStep (s : Sys) (l : Label) : Prop :=
   (∀ id p c, l = .inv id p c → c.deletes = true → c.blocking = true) ∧
-  (l = .commit .D → s.crit = none)
+  (l = .commit .D → critDump s = none)
 
 inductive ReachG (s0 : Sys) : Sys → Prop where
   | refl : ReachG s0 s0
